@@ -272,7 +272,10 @@ def _f(v):
 
 def _gen_fixtime(rng, kind=None):
     """one fixtime input: dict(t, y, sr, hold, tol, deldrops, delouttimes, kind)"""
-    kind = kind or rng.choice(["uniform", "jitter", "gaps", "shifts", "dropouts", "unsorted", "dups", "mixed", "ties"])
+    kind = kind or rng.choice(["uniform", "jitter", "gaps", "shifts", "dropouts", "unsorted", "dups", "mixed", "ties",
+                               "stray", "combined", "combined"])
+    if kind in ("stray", "combined"):
+        return _gen_fixtime_combined(rng, kind)
     sr = 2 ** rng.choice([0, 1, 2, 3, 4])
     u = GRID // sr  # one step in grid units (>= 16)
     n = rng.randint(6, 60)
@@ -315,12 +318,115 @@ def _gen_fixtime(rng, kind=None):
             "deldrops": rng.random() < 0.85, "delouttimes": rng.random() < 0.5, "kind": kind}
 
 
+def _gen_fixtime_combined(rng, kind):
+    """records that COMBINE defects: drop-outs of every flavour (nan, inf, dropval), a stray time stamp more than
+    3 sigma from the mean, gaps, jitter and samples out of order - applied in a random order; distinct data values"""
+    sr = 2 ** rng.choice([0, 1, 2, 3, 4])
+    u = GRID // sr
+    n = rng.randint(24, 70)
+    t0 = rng.randint(-400, 400) * rng.choice([1, u])
+    ts = [t0 + k * u for k in range(n)]
+    y = [1000.0 + k * 0.25 for k in range(n)]
+    defects = ["stray"] if kind == "stray" else ["stray", "drops"] + rng.sample(["jitter", "gaps", "unsorted", "drops2", "stray2"], rng.randint(0, 3))
+    if kind == "stray" and rng.random() < 0.5:
+        defects.append("drops")
+    rng.shuffle(defects)
+    for dfc in defects:
+        m = len(ts)
+        span = max(ts) - min(ts)
+        if dfc in ("stray", "stray2"):
+            far = (3 + rng.randint(0, 3)) * span + rng.randint(1, 5) * u
+            i = rng.choice([m - 1, m - 1, 0, rng.randrange(m)])
+            ts[i] = (max(ts) + far) if rng.random() < 0.75 else (min(ts) - far)
+        elif dfc in ("drops", "drops2"):
+            for _ in range(rng.randint(1, 4)):
+                y[rng.randrange(m)] = rng.choice([float("nan"), float("inf"), float("-inf"), DROPVAL, DROPVAL])
+        elif dfc == "jitter":
+            ts = [v + rng.randint(-u // 8, u // 8) for v in ts]
+        elif dfc == "gaps":
+            i = rng.randrange(2, m - 3)
+            k = rng.randint(1, 4)
+            del ts[i:i + k]
+            del y[i:i + k]
+        elif dfc == "unsorted" and len(set(ts)) == len(ts):
+            i = rng.randrange(m - 1)
+            ts[i], ts[i + 1] = ts[i + 1], ts[i]
+            y[i], y[i + 1] = y[i + 1], y[i]
+    if len(set(ts)) != len(ts):  # a determinate sort needs distinct times
+        ts = sorted(set(ts))
+        y = y[:len(ts)]
+    hold = rng.random() < 0.4
+    tol = rng.choice([0.0, 1.0 / 1024, 0.125]) if hold else 1e-3
+    return {"t": [v / GRID for v in ts], "y": ["%r" % v for v in y], "sr": sr, "hold": hold, "tol": tol,
+            "deldrops": rng.random() < 0.9, "delouttimes": rng.random() < 0.8, "kind": kind}
+
+
 def _yarr(c):
     return np.array([float(v) for v in c["y"]])
 
 
+DROPVAL = -1.40130e-45  # fixtime's default `dropval`
+
+
+def _sorted_record(c):
+    """(t, y, sortvec) as fixtime sees the record after _chk_negsteps (sorted only if a step is negative)"""
+    t = np.array(c["t"], dtype=float)
+    y = _yarr(c)
+    if (np.diff(t) < 0).any():
+        j = np.argsort(t)
+        return t[j], y[j], j
+    return t, y, None
+
+
+def _drop_flags(y):
+    """which samples are drop-outs: nan, inf, or within 1 % of `dropval`"""
+    bad = ~np.isfinite(y)
+    ok = ~bad
+    bad[ok] = np.abs(y[ok] - DROPVAL) < abs(DROPVAL) / 100
+    return bad
+
+
+def _clean_ref(c):
+    """brute-force reference for fixtime's documented steps 1-2 (independent of pyyeti): remove the drop-outs (if
+    `deldrops`), then the times more than 3 standard deviations from the mean of what is left (if `delouttimes`).
+    -> (t_valid, y_valid, {dropouts, outtimes, alldrops} as positions in the record as given, near-tie?)"""
+    t, y, sv = _sorted_record(c)
+    n = len(t)
+    pos = np.arange(n) if sv is None else np.asarray(sv)
+    bad = _drop_flags(y) if c["deldrops"] else np.zeros(n, bool)
+    kept = np.nonzero(~bad)[0]
+    tk = [Fraction(float(x)) for x in t[kept]]
+    out = np.zeros(n, bool)
+    tie = False
+    if len(tk) >= 2:
+        mn = sum(tk) / len(tk)
+        var9 = 9 * sum((x - mn) ** 2 for x in tk) / (len(tk) - 1)
+        for i, x in zip(kept, tk):
+            d2 = (x - mn) ** 2
+            out[i] = d2 > var9
+            if var9 > 0 and abs(d2 - var9) <= Fraction(1, 10 ** 8) * var9:
+                tie = True
+    final = ~bad & ~(out if c["delouttimes"] else np.zeros(n, bool))
+    drops = {"dropouts": sorted(int(i) for i in pos[bad]) if c["deldrops"] else None,
+             "outtimes": sorted(int(i) for i in pos[out]),
+             "alldrops": sorted(int(i) for i in pos[~final])}
+    return t[final], y[final], drops, tie
+
+
+def _info_drops(info):
+    """fixinfo.alldrops as plain lists (None when fixtime returned early: only drop-outs)"""
+    ad = info.alldrops
+    if ad is None or isinstance(ad, tuple):
+        return None
+
+    def lst(v):
+        return None if v is None else sorted(int(i) for i in np.asarray(v).ravel())
+
+    return {"dropouts": lst(ad.dropouts), "outtimes": lst(ad.outtimes), "alldrops": lst(ad.alldrops)}
+
+
 def _run_fixtime(c):
-    """-> (tnew, ynew, told_clean, y_clean) or ('error', kind)"""
+    """-> (tnew, ynew, fixinfo.alldrops as lists | None) or ('error', kind)"""
     from pyyeti import dsp
 
     t = np.array(c["t"], dtype=float)
@@ -333,16 +439,7 @@ def _run_fixtime(c):
                 deldrops=c["deldrops"], delouttimes=c["delouttimes"], getall=True, verbose=False)
     except Exception as e:  # noqa: BLE001
         return ("error", type(e).__name__)
-    mask = np.ones(len(t), bool)
-    ad = info.alldrops
-    if isinstance(ad, tuple):  # the "only drop-outs" early return hands back _get_alldrops' whole tuple
-        ad = ad[-1]
-    if ad is not None and ad.alldrops is not None:
-        mask[np.asarray(ad.alldrops, dtype=int)] = False
-    if (np.diff(t) < 0).any():
-        j = np.argsort(t)
-        t, y, mask = t[j], y[j], mask[j]
-    return np.asarray(tn), np.asarray(yn), t[mask], y[mask]
+    return np.asarray(tn), np.asarray(yn), _info_drops(info)
 
 
 def _gen_spec(rng, nprng):
@@ -612,19 +709,57 @@ def _corr_fixtime(ctx, drv):
     # F11's input: exactly uniform data, hold_previous_value, tolerance 0
     cases.append({"t": (np.arange(10) / 8).tolist(), "y": ["%r" % float(v) for v in range(1, 11)], "sr": 8, "hold": True,
                   "tol": 0.0, "deldrops": True, "delouttimes": True, "kind": "uniform"})
+    # one nan drop-out early on and a stray time stamp at the end; the same with the stray first in the file
+    for tt in (np.hstack((np.arange(30.0), 200.0)), np.hstack((200.0, np.arange(30.0)))):
+        yy = [1000.0 + k for k in range(31)]
+        yy[10] = float("nan")
+        yy[12] = DROPVAL
+        cases.append({"t": tt.tolist(), "y": ["%r" % v for v in yy], "sr": 1, "hold": False, "tol": 1e-3, "deldrops": True,
+                      "delouttimes": True, "kind": "combined"})
+    cases += [_gen_fixtime(rng, "combined") for _ in range(20)]
     cases += [_gen_fixtime(rng) for _ in range(ctx.pick(1500, 10000))]
-    runs = []
+    # phase 1: the index bookkeeping (_del_drops, _del_outtimes, _get_alldrops) from the model
+    pre = []
     req = []
     for c in cases:
         r = _run_fixtime(c)
-        if r[0] is None or (isinstance(r[0], str) and r[0] == "error"):
+        if isinstance(r[0], str) and r[0] == "error":
             ctx.count("fixtime:error-" + r[1])
             ctx.skip("fixtime raised " + r[1])
             continue
-        tn, yn, tc, yc = r
-        if len(tc) == 0:
+        tn, yn, drops = r
+        if drops is None:
             ctx.skip("fixtime: only drop-outs")
             continue
+        ts_, ys_, sv = _sorted_record(c)
+        flags = _drop_flags(ys_)
+        req.append("fxd %d %d | %s | %s | %s" % (c["deldrops"], c["delouttimes"], _qs(ts_), " ".join("1" if b_ else "0" for b_ in flags),
+                                                 "" if sv is None else " ".join(str(int(i)) for i in sv)))
+        pre.append((c, tn, yn, drops, ts_, ys_))
+    rep1 = drv.ask(req)
+    runs = []
+    req = []
+    for (c, tn, yn, drops, ts_, ys_), r1 in zip(pre, rep1):
+        md, mo, ma, mk = r1.split("|")
+        model = {"dropouts": None if md.strip() == "none" else [int(x) for x in md.split()], "outtimes": [int(x) for x in mo.split()],
+                 "alldrops": [int(x) for x in ma.split()]}
+        keep = [int(x) for x in mk.split()]
+        _, _, _, tie = _clean_ref(c)
+        if tie:
+            ctx.skip("fixtime: a time within rounding of the 3-sigma outlier threshold")
+            continue
+        if model["outtimes"]:
+            ctx.count("branch:fixtime-outlier-time")
+            if model["dropouts"] and (min(model["dropouts"]) < max(model["outtimes"])):
+                ctx.count("branch:fixtime-dropout-and-outlier-time")
+        if model["dropouts"] and any(abs(float(v) - DROPVAL) < abs(DROPVAL) / 100 for v in c["y"] if v not in ("nan", "inf", "-inf")):
+            ctx.count("branch:fixtime-dropval-dropout")
+        if drops != model:
+            ctx.disagree("fixtime-alldrops", c, drops, model)
+        if len(keep) == 0:
+            ctx.skip("fixtime: nothing left after cleaning")
+            continue
+        tc, yc = ts_[keep], ys_[keep]
         dt = 1 / c["sr"]
         if c["hold"]:
             ts = tc - dt * c["tol"]
@@ -657,6 +792,26 @@ def _corr_fixtime(ctx, drv):
             ctx.count("branch:fixtime-previous-tol0")
         if len(yn) != len(want) or not np.array_equal(yn, want, equal_nan=True):
             ctx.disagree("fixtime-index", c, ["%r" % v for v in yn.tolist()], ["%r" % v for v in want.tolist()])
+
+
+_DTYPES = ["int16", "int32", "int64", "uint8", "float32", "list"]
+
+
+def _typed_numbers(nprng, ln, dtn):
+    """(storage object, the same numbers as float64) for a signal of `ln` samples stored as `dtn`"""
+    if dtn == "float32":
+        v = nprng.normal(size=ln).astype(np.float32)
+        return v, v.astype(np.float64)
+    lo, hi = (0, 256) if dtn == "uint8" else (-300, 300)
+    v = nprng.integers(lo, hi, size=ln)
+    return _as_dtype(v.astype(np.float64), dtn), v.astype(np.float64)
+
+
+def _as_dtype(x, dtn):
+    x = np.asarray(x)
+    if dtn == "list":
+        return [int(v) for v in x.tolist()]
+    return x.astype(getattr(np, dtn))
 
 
 def _corr_resample(ctx, drv):
@@ -697,6 +852,7 @@ def _corr_resample(ctx, drv):
     # taps and output (numeric)
     nprng = ctx.np_rng(19)
     ncases = []
+    dtypes = {}
     for _ in range(ctx.pick(80, 500)):
         p, q = rng.randint(1, 5), rng.randint(1, 5)
         pts = rng.randint(1, 4)
@@ -708,6 +864,11 @@ def _corr_resample(ctx, drv):
         data = nprng.normal(size=ln) + rng.choice([0.0, 3.0])
         if rng.random() < 0.15:
             data = np.full(ln, float(rng.choice([3.0, -0.375, 0.1, 1e6 + 0.3])))
+        elif rng.random() < 0.45:
+            # the same numbers stored with another dtype (raw counts, single precision, a Python list)
+            dtn = rng.choice(_DTYPES)
+            data = _typed_numbers(nprng, ln, dtn)[1]
+            dtypes[len(ncases)] = dtn
         ncases.append((p, q, pts, beta, w, data))
     for p, q, pts, cval in ((3, 1, 3, 3.0), (2, 1, 2, 0.1), (4, 6, 2, -0.375), (1, 5, 3, 1e6 + 0.3)):
         g = math.gcd(p, q)
@@ -721,6 +882,19 @@ def _corr_resample(ctx, drv):
     rep = drv.ask(req)
     for k, (p, q, pts, beta, w, data) in enumerate(ncases):
         out, fir = dsp.resample(data, p, q, pts=pts, beta=beta, getfir=True)
+        if k in dtypes:
+            # the model works on the numbers; the implementation gets them in the stated storage type
+            typed = _as_dtype(data, dtypes[k])
+            out_t = dsp.resample(typed, p, q, pts=pts, beta=beta)
+            mo_ = _unbits(rep[2 * k + 1])
+            tol_ = 1e-4 if dtypes[k] == "float32" else 1e-9
+            g_ = math.gcd(p, q)
+            ctx.count("branch:resample-dtype-" + dtypes[k])
+            if p // g_ > 1 and dtypes[k] != "float32":
+                ctx.count("branch:resample-integer-dtype-upsampled")
+            if not _close(out_t, mo_, max(1.0, np.abs(data).max()) * max(1.0, np.abs(fir).sum()), tol=tol_):
+                ctx.disagree("resample-dtype", {"p": p, "q": q, "pts": pts, "beta": beta, "dtype": dtypes[k], "data": data.tolist()},
+                             np.asarray(out_t, dtype=float).tolist(), mo_.tolist())
         mf, mo = _unbits(rep[2 * k]), _unbits(rep[2 * k + 1])
         inp = {"p": p, "q": q, "pts": pts, "beta": beta, "data": data.tolist()}
         ctx.case(("rs", p, q, pts, beta, tuple(data.tolist())), nontrivial=True, branch="resample-numeric")
@@ -1149,7 +1323,9 @@ def correspondence(ctx):
     ] if have_edges else []) + [
         "branch:tnew-no-align", "branch:tnew-align-length-mismatch", "branch:tnew-align-mean", "branch:tnew-round-half-tie",
         "branch:tnew-exact-compare", "branch:tnew-shifted", "branch:fixtime-tnew-end-to-end",
-        "branch:resample-upsample-q1", "branch:resample-constant-input",
+        "branch:fixtime-outlier-time", "branch:fixtime-dropout-and-outlier-time", "branch:fixtime-dropval-dropout",
+        "branch:resample-upsample-q1", "branch:resample-constant-input", "branch:resample-integer-dtype-upsampled",
+        "branch:resample-dtype-float32", "branch:resample-dtype-list",
         "branch:rescale-nearlin-below-tol", "branch:rescale-nearlin-above-tol",
         "oct:exact:outside", "oct:exact:center", "oct:exact:inside", "oct:approx:outside", "oct:approx:center",
         "oct:approx:inside", "oct:value-error", "branch:oct-anchor-given", "branch:oct-frange0-nonpositive",
@@ -1174,11 +1350,21 @@ def _or_fixtime(ctx, c):
     r = _run_fixtime(c)
     if isinstance(r[0], str):
         return
-    tn, yn, tc, yc = r
-    if len(tc) == 0:
+    tn, yn, drops = r
+    if drops is None:
+        return
+    # the valid input samples, by brute force: neither drop-outs nor times more than 3 sigma from the mean
+    tc, yc, ref, tie = _clean_ref(c)
+    if len(tc) == 0 or tie:
         return
     dt = 1.0 / c["sr"]
     inp = dict(c)
+    if drops != ref:
+        both = bool(ref["dropouts"]) and bool(ref["outtimes"])
+        ctx.fail("fixtime-alldrops-bookkeeping" + ("-dropout-and-outlier-time" if both else ""),
+                 "fixinfo.alldrops does not list the drop-outs / the times more than 3 sigma from the mean / their union "
+                 "as positions in the record as given", inp, drops, ref)
+        return
     k = np.arange(len(tn))
     if len(tn) != len(yn) or not np.all(np.abs((tn - tn[0]) - k * dt) <= 1e-9 * dt):
         ctx.fail("fixtime-nonuniform-time-base", "fixtime's time vector is not tnew[0] + k/sr", inp, tn.tolist()[:12], "uniform, step %r" % dt)
@@ -1514,6 +1700,64 @@ def _or_nanspec(ctx, spec, row):
     ctx.count("oracle:spec-nan-row")
 
 
+def _or_dtypes(ctx, inp):
+    """storage type of the inputs of fixtime / area / interp / rescale: integer arrays, single precision, Python lists -
+    the result must be that of the same numbers as float64"""
+    from pyyeti import dsp, psd
+
+    rng = np.random.default_rng(inp["tseed"])
+    n = int(rng.integers(8, 40))
+    # fixtime: integer time tags (sr = 1) with gaps, integer data
+    t = np.cumsum(rng.choice([1, 1, 1, 1, 2, 3], size=n)).astype(np.int64)
+    y = rng.integers(0, 250, size=n)
+    with warnings.catch_warnings():
+        _quiet()
+        ref = dsp.fixtime((t.astype(float), y.astype(float)), 1, verbose=False)
+        for tt, yy, nm in ((t, y, "int64"), (t.astype(np.int16), y.astype(np.uint8), "int16/uint8"), (t.tolist(), y.tolist(), "list"),
+                           (t.astype(np.float32), y.astype(np.float32), "float32"), (t.astype(float), y.astype(np.int32), "float64/int32")):
+            got = dsp.fixtime((tt, yy), 1, verbose=False)
+            if not (np.array_equal(np.asarray(got[0], dtype=float), ref[0]) and np.array_equal(np.asarray(got[1], dtype=float), ref[1])):
+                ctx.fail("fixtime-dtype", "fixtime of a record stored as %s differs from the same record as float64" % nm,
+                         dict(inp, dtype=nm, t=t.tolist(), y=y.tolist()), [np.asarray(got[0]).tolist()[:8], np.asarray(got[1]).tolist()[:8]],
+                         [ref[0].tolist()[:8], ref[1].tolist()[:8]])
+                return
+    # area / interp on an integer specification
+    m = int(rng.integers(2, 6))
+    f = np.cumsum(rng.integers(1, 40, size=m)) + 5
+    p = rng.integers(1, 9, size=m)
+    spec_i = np.column_stack([f, p])
+    x = [float(v) for v in np.sqrt(f[:-1] * f[1:])]
+    with np.errstate(all="ignore"):
+        a_f = psd.area(spec_i.astype(float))
+        i_f = psd.interp(spec_i.astype(float), x).ravel()
+        for sp, nm in ((spec_i, "int64 array"), (spec_i.astype(np.int32), "int32 array"), ((f.tolist(), p.tolist()), "lists"),
+                       (spec_i.astype(np.float32), "float32 array")):
+            rt = 1e-5 if nm.startswith("float32") else 1e-12
+            a = psd.area(sp)
+            i_ = np.asarray(psd.interp(sp, x)).ravel()
+            if not (np.allclose(a, a_f, rtol=rt, atol=0) and np.allclose(i_, i_f, rtol=rt, atol=0)):
+                ctx.fail("psd-spec-dtype", "area/interp of a specification stored as %s differs from the same numbers as float64" % nm,
+                         dict(inp, dtype=nm, spec=spec_i.tolist()), [np.asarray(a).tolist(), i_.tolist()], [a_f.tolist(), i_f.tolist()])
+                return
+    # rescale with integer centre frequencies / levels
+    F = np.arange(1, int(rng.integers(8, 30)))
+    P = rng.integers(1, 9, size=len(F))
+    freq = np.arange(2, len(F), 2)
+    for ext in (True, False):
+        with np.errstate(all="ignore"):
+            r_f = psd.rescale(P.astype(float), F.astype(float), freq=freq.astype(float), extendends=ext)
+            for (PP, FF, fq), nm in (((P, F, freq), "int64 arrays"), ((P.tolist(), F.tolist(), freq.tolist()), "lists"),
+                                     ((P.astype(np.int16), F.astype(np.int16), freq.astype(np.int16)), "int16 arrays")):
+                r_ = psd.rescale(PP, FF, freq=fq, extendends=ext)
+                if not (np.allclose(r_[0], r_f[0], rtol=1e-12, atol=0) and np.allclose(r_[3], r_f[3], rtol=1e-12, atol=0)
+                        and abs(r_[2] - r_f[2]) <= 1e-12 * abs(r_f[2])):
+                    ctx.fail("rescale-dtype", "rescale of inputs stored as %s differs from the same numbers as float64" % nm,
+                             dict(inp, dtype=nm, P=P.tolist(), F=F.tolist(), freq=freq.tolist(), ext=ext),
+                             np.asarray(r_[0]).tolist()[:6], np.asarray(r_f[0]).tolist()[:6])
+                    return
+    ctx.count("oracle:dtypes")
+
+
 def _gen_resample(rng):
     return {"n": rng.randint(1, 90), "p": rng.randint(1, 9), "q": rng.randint(1, 9), "pts": rng.choice([3, 5, 10, 10, 15]),
             "dseed": rng.randint(0, 10 ** 6), "offset": rng.choice([0.0, 5.0]), "fr": rng.choice([0.01, 0.02, 0.04])}
@@ -1556,6 +1800,28 @@ def _or_resample(ctx, inp):
                      kept.tolist()[:8], ref.tolist()[:8])
             return
         ctx.count("oracle:resample-upsample")
+    # storage type: integer counts, single precision, lists, 2-D - against the float64 result of the same numbers
+    for dtn in _DTYPES:
+        typed, nums = _typed_numbers(nprng, ln, dtn)
+        tol = (1e-4 if dtn == "float32" else 1e-9) * max(1.0, float(np.abs(nums).max()))
+        o_t = np.asarray(dsp.resample(typed, p, q, pts=pts), dtype=float)
+        o_f = dsp.resample(nums, p, q, pts=pts)
+        bad = o_t.shape != o_f.shape or not np.all(np.abs(o_t - o_f) <= tol)
+        if not bad and pr >= qr:
+            kept = o_t[::pr][: len(nums[::qr])]
+            bad = not np.all(np.abs(kept - nums[::qr][: len(kept)]) <= max(tol, 1e-9 * max(1.0, float(np.abs(nums).max()))))
+        if not bad and dtn != "list":
+            t2 = np.column_stack([np.asarray(typed), np.asarray(typed)[::-1]])
+            o0 = np.asarray(dsp.resample(t2, p, q, pts=pts, axis=0), dtype=float)
+            o1 = np.asarray(dsp.resample(t2.T.copy(), p, q, pts=pts, axis=1), dtype=float)
+            bad = o0.shape != (want_len, 2) or not np.all(np.abs(o0[:, 0] - o_f) <= tol) or not np.all(np.abs(o1.T - o0) <= tol)
+        if bad:
+            ctx.fail("resample-dtype-" + ("float32" if dtn == "float32" else "integer"),
+                     "resampling numbers stored as %s differs from resampling the same numbers as float64 "
+                     "(or does not keep the original samples when upsampling)" % dtn, dict(inp, dtype=dtn, data=nums.tolist()),
+                     o_t.tolist()[:8], o_f.tolist()[:8])
+            return
+    ctx.count("oracle:resample-dtypes")
     # 2-D, axis handling
     d2 = nprng.normal(size=(ln, 3))
     o0 = dsp.resample(d2, p, q, pts=pts, axis=0)
@@ -1700,6 +1966,8 @@ def search(ctx, hints):
     for sp in specs[:ctx.pick(60, 400)]:
         if len(sp) >= 2:
             _or_nanspec(ctx, sp, rng.randrange(0, len(sp) + 1))
+    for _ in range(ctx.pick(25, 200)):
+        _or_dtypes(ctx, {"tseed": rng.randint(0, 10 ** 6)})
     # resample ------------------------------------------------------------------------
     _or_resample(ctx, {"n": 89, "p": 3, "q": 7, "pts": 10, "dseed": 1, "offset": 0.0, "fr": 0.02})  # F32's input
     for _ in range(ctx.pick(250, 2000)):
@@ -1715,6 +1983,8 @@ def replay(ctx, data):
     sub = type(ctx)(ctx.prop, ctx.tier, ctx.seed)
     if "hold" in i and "t" in i:
         _or_fixtime(sub, i)
+    elif "tseed" in i:
+        _or_dtypes(sub, {"tseed": i["tseed"]})
     elif "nanrow" in i:
         _or_nanspec(sub, [tuple(r) for r in i["spec"]], i["nanrow"])
     elif "spec" in i:
